@@ -203,30 +203,38 @@ func genLit(rng *Rng) any {
 	}
 }
 
-func genFilter(rng *Rng, depth int) *jqF {
+// safeFilterPaths never index into a leaf value: a filter built from them cannot fail.
+var safeFilterPaths = [][]string{
+	{"spec", "replicas"}, {"spec", "a"}, {"spec", "b", "c"}, {"spec", "b"}, {"spec"}, {"status", "x"}, {"status"},
+	{"data", "k"}, {"data"}, {"metadata", "labels"}, {"metadata", "name"}, {"nope"}, {"spec", "nope", "deeper"}, {},
+}
+
+func genFilter(rng *Rng, depth int) *jqF { return genFilterWith(rng, depth, filterPaths) }
+
+func genFilterWith(rng *Rng, depth int, paths [][]string) *jqF {
 	k := rng.Intn(100)
 	if depth <= 0 && k >= 60 {
 		k = rng.Intn(60)
 	}
 	switch {
 	case k < 50:
-		return &jqF{Kind: "path", Path: PickOne(rng, filterPaths)}
+		return &jqF{Kind: "path", Path: PickOne(rng, paths)}
 	case k < 60:
 		return &jqF{Kind: "lit", Lit: genLit(rng)}
 	case k < 75:
 		f := &jqF{Kind: "obj"}
 		for n := rng.Intn(4); n > 0; n-- {
-			f.Fields = append(f.Fields, jqField{PickOne(rng, []string{"x", "y", "z", "a"}), genFilter(rng, depth-1)})
+			f.Fields = append(f.Fields, jqField{PickOne(rng, []string{"x", "y", "z", "a"}), genFilterWith(rng, depth-1, paths)})
 		}
 		return f
 	case k < 88:
 		f := &jqF{Kind: "arr"}
 		for n := rng.Intn(4); n > 0; n-- {
-			f.Items = append(f.Items, genFilter(rng, depth-1))
+			f.Items = append(f.Items, genFilterWith(rng, depth-1, paths))
 		}
 		return f
 	default:
-		return &jqF{Kind: "alt", A: genFilter(rng, depth-1), B: genFilter(rng, depth-1)}
+		return &jqF{Kind: "alt", A: genFilterWith(rng, depth-1, paths), B: genFilterWith(rng, depth-1, paths)}
 	}
 }
 
